@@ -73,7 +73,13 @@ impl RtpsWriterProxy {
     }
 
     pub fn push_data_frag(&mut self, submessage: DataFragSubmessage) {
-        if !self.frag_buffer.contains(&submessage) {
+        // A fragment is identified by the change it belongs to and its fragment number. A copy that differs in
+        // another field (e.g. the one addressed to another reader of the same participant) is still the same
+        // fragment and must not be counted twice when checking whether the change is complete
+        if !self.frag_buffer.iter().any(|f| {
+            f.writer_sn() == submessage.writer_sn()
+                && f.fragment_starting_num() == submessage.fragment_starting_num()
+        }) {
             self.frag_buffer.push(submessage);
         }
     }
